@@ -194,13 +194,143 @@ def c14_classify(line, res):
                                 r.get("res"), r.get("when"))
 
 
+
+# ---------------------------------------------------------------- round 2: kind "outage"
+# a SEQUENCE of exchanges of one upstream across a server outage (harness/cmd/implrun/c14b.go):
+#   <id> tr=<udp|tcp|tcpp|tls|tlsp|doh|doq|sudp|stcpp|stcp|sdoq> warm=<k> down=<refuse|hsfail|rwfail|rwboth>
+#        conc=<n> reps=<r> dl=<ms> after=<m> adl=<ms>
+def _og(n, tr, warm, down, conc, reps, dl, after, adl=2500):
+    return "o%d tr=%s warm=%d down=%s conc=%d reps=%d dl=%d after=%d adl=%d" % (n, tr, warm, down, conc, reps, dl, after, adl)
+
+
+def c14_outage_gen(rng, tier):
+    out = []
+
+    def add(tr, warm, down, conc, reps=1, after=None, adl=2500):
+        out.append(_og(len(out), tr, warm, down, conc, reps, rng.choice([400, 500, 600]),
+                       rng.choice([2, 3, 4]) if after is None else after, adl))
+
+    for _ in range(budget(tier, 1, 12)):
+        # --- every real transport: the FIRST dial fails (never dialled before), and the RE-DIAL after the pooled
+        #     connection went stale fails; refusal and handshake failure; afterwards the server is healthy
+        for tr in ("udp", "tcp", "tcpp", "tls", "tlsp", "doh", "doq"):
+            # a quic:// upstream dials from an unconnected socket: a closed port is silence, the dial stays in flight
+            # and completes (by retransmission) once the server is back
+            adl = 4000 if tr == "doq" else 2500
+            add(tr, 0, "refuse", 1, adl=adl)
+            add(tr, 1, "refuse", rng.choice([2, 4, 8]), adl=adl)
+            if tr != "udp":
+                add(tr, 0, "hsfail", rng.choice([1, 3]))
+                add(tr, 1, "hsfail", rng.choice([1, 2, 4]))
+        # --- a refusing UDP port under load: many exchanges in flight on the one pooled socket, writer and read
+        #     loop both learn of the failure; follow-up exchanges on the same upstream
+        for conc, reps in ((8, 2), (16, 3), (32, 2), (rng.choice([4, 12, 24, 48]), rng.choice([1, 2, 4]))):
+            add("udp", rng.choice([0, 1]), "refuse", conc, reps)
+        # --- the one-at-a-time transports with several stale idle connections left over
+        for tr in ("tcp", "tls"):
+            add(tr, rng.choice([2, 3, 5]), rng.choice(["refuse", "hsfail"]), rng.choice([1, 2, 3]))
+        # --- scripted dialers: refusal on demand; connections whose Write and Read both fail
+        for down in ("refuse", "rwfail", "rwboth"):
+            add("sudp", 0, down, 1)
+            add("sudp", 1, down, rng.choice([2, 4, 8]), rng.choice([1, 2]))
+            add("stcp", rng.choice([0, 1, 2]), down, rng.choice([1, 2, 3]))
+        for down in ("refuse", "rwboth"):
+            add("stcpp", rng.choice([0, 1]), down, rng.choice([1, 2, 4]))
+        add("sdoq", 0, "refuse", 1)
+        add("sdoq", 1, "refuse", rng.choice([1, 2, 4, 8]), rng.choice([1, 2]))
+        add("sdoq", rng.choice([0, 1]), "refuse", rng.choice([2, 3]), 1, after=rng.choice([1, 4]))
+    return out
+
+
+def c14_outage_oracle(line, res):
+    f = gens.fields(line)
+    r = _res(res)
+    burst, after = r.get("burst"), r.get("after", "")
+    if burst == "HANG":
+        return ("c14-late: an exchange made while the server was down (%s) had not returned %s ms after its %s ms "
+                "deadline (%s)" % (f["down"], 2500, f["dl"], res))
+    if "H" in after:
+        return ("c14-late: after the outage an exchange on the same upstream never returned (deadline %s ms): %s"
+                % (f["adl"], res))
+    if r.get("late") == "1" or "L" in after:
+        return "c14-late: an exchange returned later than its deadline + 1.5 s (%s)" % res
+    if burst not in ("ERR", "REPLY", "MIXED") or any(c not in "RE-" for c in after):
+        return "c14-bad-result %s" % res
+    if "E" in after:
+        return ("c14-not-recovered: the server is healthy again on the same address, but %d of %d later exchanges "
+                "(each with a new %s ms deadline) failed; dials after the recovery: %s, connections the server "
+                "accepted: %s" % (after.count("E"), len(after), f["adl"], r.get("nd"), r.get("acc")))
+    return None
+
+
+def c14_outage_compare(ir, mr):
+    a, b = _res(ir), _res(mr)
+    for k in ("burst", "after"):
+        if a.get(k) != b.get(k):
+            return False
+    if a.get("nd", "-") != "-" and b.get("nd", "-") != "-" and a.get("nd") != b.get("nd"):
+        return False
+    return True
+
+
+def c14_outage_classify(line, res):
+    f = gens.fields(line)
+    r = _res(res)
+    conc = int(f["conc"]) * int(f["reps"])
+    return "%s/%s/warm%s/conc%s/%s/%s" % (f["tr"], f["down"], "0" if f["warm"] == "0" else "1+",
+                                        "1" if conc == 1 else ("2-8" if conc <= 8 else "9+"), r.get("burst"),
+                                        "recovered" if set(r.get("after", "")) <= set("R-") else "not-recovered")
+
+
+# ---------------------------------------------------------------- round 2: kind "connlock"
+# goroutines running the lock-protected operations of ONE real pipelineConn (harness/cmd/implrun/c14c.go)
+CL_OPS = ("close", "status", "getq", "reserve", "add", "del")
+
+
+def c14_connlock_gen(rng, tier):
+    out = []
+    for _ in range(budget(tier, 40, 600)):
+        progs = []
+        for _g in range(rng.randrange(1, 5)):
+            progs.append(",".join(rng.choice(CL_OPS) if rng.random() < 0.7 else "close" for _o in range(rng.randrange(1, 5))))
+        out.append("l%d eol=%d g=%s" % (len(out), 1 if rng.random() < 0.3 else 0, ";".join(progs)))
+    return out
+
+
+def c14_connlock_oracle(line, res):
+    r = _res(res)
+    m = (r.get("done") or "0/1").split("/")
+    if r.get("final") != "ok" or m[0] != m[1]:
+        return ("c14-conn-lock-stuck: a call on the pipelined connection (closeWithErr / Status / Reserve / addQueueC / "
+                "deleteQueueC) never returned - the connection mutex is held by nobody who would release it (%s)" % res)
+    return None
+
+
+def c14_connlock_classify(line, res):
+    f = gens.fields(line)
+    r = _res(res)
+    ncl = f["g"].count("close") + (f["g"].count("del") if f["eol"] == "1" else 0)
+    return "eol%s/closes%s/closed%s/%s" % (f["eol"], "0" if ncl == 0 else ("1" if ncl == 1 else "2+"), r.get("closed"), r.get("final"))
+
+
 PROPS["C14"] = dict(
     kinds=[dict(name="faults", gen=c14_gen, oracle=c14_oracle, compare=c14_compare, classify=c14_classify,
-                nontrivial=lambda l, r: True, timeout=900)],
+                nontrivial=lambda l, r: True, timeout=900),
+           dict(name="outage", gen=c14_outage_gen, oracle=c14_outage_oracle, compare=c14_outage_compare,
+                classify=c14_outage_classify, nontrivial=lambda l, r: True, timeout=900),
+           dict(name="connlock", gen=c14_connlock_gen, oracle=c14_connlock_oracle,
+                compare=lambda a, b: a.split(" || ")[0] == b.split(" || ")[0],
+                classify=c14_connlock_classify, nontrivial=lambda l, r: True, timeout=600)],
     rule="one scripted exchange of a real upstream.NewUpstream (udp, tcp, tcp+pipeline, tls, tls+pipeline, https/h2, quic) "
          "against a fake loopback server (DoQ: quic-go server): refuse / black-hole dial / accept-and-close / silent / half frame / garbage / "
          "FIN / RST on fresh connections, and on pooled connections while idle or at their next use, incl. k = 1, 5, 6, "
-         "7, 12 stale idle connections; distinct = distinct case line; all are non-trivial (each runs real sockets)",
+         "7, 12 stale idle connections; outage: sequences of exchanges across a server outage on the same port (first "
+         "dial / re-dial after a stale pooled connection fails by refusal or handshake error, 1-64 exchanges meanwhile, "
+         "then a healthy server: every exchange returns by its deadline + 1.5 s and the later ones get their reply) for "
+         "udp, tcp, tcp+pipeline, tls, tls+pipeline, https, quic and the transport constructors over scripted dialers "
+         "(incl. connections whose Write and Read both fail); connlock: goroutines running the lock-protected "
+         "operations of one real pipelineConn against the model of its mutex; distinct = distinct case line; all are "
+         "non-trivial (each runs real sockets / the real connection object)",
     assumptions=["loopback TCP/UDP/TLS delivery; context deadlines 300-500 ms for cases expected to wait, 1200 ms "
                  "otherwise; 1.5 s slack on the return time; 'early' = returned before the deadline",
                  "a Write of one query is accepted by the kernel promptly (a blocked Write on a pipelined connection "
@@ -208,6 +338,8 @@ PROPS["C14"] = dict(
     trusted=["C14: real time, kernel socket behaviour, TLS, net/http (DoH) and goroutine scheduling are sampled by the "
              "fault scripts, not modelled"],
     level_note="partial: the theorems cover the retry/select logic of one exchange at atomic-action granularity "
-               "against an adversarial environment; wall-clock deadlines, kernel buffering and scheduling are only "
-               "sampled by the fault scripts",
+               "against an adversarial environment, the mutex discipline of one pipelined connection (never left locked, "
+               "no deadlock, second close is a no-op) and the shared dialing call of QuicTransport (a finished call is "
+               "never joined, a failed dial is followed by a new one); wall-clock deadlines, kernel buffering and "
+               "scheduling are only sampled by the fault and outage scripts",
 )
